@@ -22,6 +22,18 @@ CHECK = {
     "stop": ["(*" + M + "actor.actorSystem).Spawn", "(*" + M + "actor.actorSystem).spawnOnDatacenter", M + "actor.newRemotePID"],
     "timeout_ms": {"quick": 170000, "thorough": 1500000},
     "opts": {"unwind": 16, "substitute": SUBST, "birth_guard_stores": True, "map_range": "per_entry", "map_dedup": True, "feas_from_iter": 100},
-    "explanation": "",
-    "bounds": {},
+    "explanation": "(1) internal/codec: EncodeSupervisor/DecodeSupervisor (+ encode/decodeSupervisorStrategy/Directive), supervisor.NewSupervisor and its options, Supervisor.Rules/Directive/AnyErrorDirective/"
+                   "SetDirectiveByType, xsync.Map, the generated internalpb getters: every supervisor a user can build with WithStrategy, WithRetry(any uint32, any int64), 0..2 WithDirective rules over a set of "
+                   "error types (incl. the two defaults being overridden), WithAnyErrorDirective, WithExponentialBackoff(any, any, any) is encoded and decoded and compared observable by observable (strategy, retry budget, "
+                   "retry window, directive per error type, any-error directive, number of rules, backoff triple); the SHAPE of the rule set is one job per shape, all values symbolic. EncodePassivationStrategy/Decode.. "
+                   "(all three kinds, any duration / any int), EncodeReentrancy/DecodeReentrancy (all modes, any int maxInFlight, documented clamp to [0, 2^32-1]), nil cases. "
+                   "(2) actor: the relocation wire end to end - spawn options -> newSpawnConfig -> the pid options configPID applies (transcribed) -> PID.toSerialize -> internalpb.Actor -> actorSystem.wireSpawnOptions -> "
+                   "newSpawnConfig: supervisor, passivation, reentrancy, stashing, role (any 2-byte string or none), explicit init timeout (any int64), relocatable compared field by field. "
+                   "(3) actor: actorSystem.SpawnOn with cluster placement on another member (harness cluster / remoting client): the remote.SpawnRequest handed to the remoting client carries every configured field. "
+                   "Substituted: supervisor.errorType (reflect type name -> the same strings for the harness' error types), durationpb.New / Duration.AsDuration (exact inverse pair on int64, like the real pair, without the "
+                   "64-bit division by 10^9), sort.Slice (insertion sort with the real less). Stubbed: types.Name (reflection). Outside: protobuf marshalling (identity on the in-memory message), "
+                   "dependencies (registry + reflection), remoteclient.RemoteSpawn / remote_server RemoteSpawn handlers (their field conversions are the codec functions checked in (1)).",
+    "bounds": {"error types": "quick 2 (PanicError, InternalError), thorough 5 (+ value-receiver custom, PanicNilError, pointer custom)", "typed rules": "0..2", "numbers": "full width (uint32 / int64 / int)",
+               "role": "none or any 2-byte string", "shape split": "14 jobs (quick) / 62 jobs (thorough)"},
+    "assumptions": ["engine options birth_guard_stores, map_range=per_entry, map_dedup", "map iteration order = insertion order (decode goes through a map, order-insensitive)"],
 }
